@@ -773,6 +773,82 @@ func (e *env) readCode(outdir string) {
 		fail("netConn.read: the switch on CloseStatus(err) with an io.EOF clause was not found")
 	}
 	fmt.Fprintf(&c, "(* netConn.read: the close codes of the peer that read as io.EOF *)\nDefinition gen_netconn_eof (code : Z) : bool :=\n  %s.\n", eof)
+	// limitReader.Read: the four decisions about the allowance lr.n
+	lr := e.fnRecv("read.go", "limitReader", "Read")
+	la2 := atoms{w: "limitReader.Read", z: map[string]string{"lr.n": "n", "len(p)": "plen"}, b: map[string]string{}}
+	unlimited, exhausted, clamp, hitAfter := "", "", "", ""
+	seenSub := false
+	for _, st := range lr.Body.List {
+		if as, ok := st.(*ast.AssignStmt); ok && as.Tok == token.SUB_ASSIGN && len(as.Lhs) == 1 && exprKey(as.Lhs[0]) == "lr.n" {
+			if exprKey(as.Rhs[0]) != "n" {
+				fail("limitReader.Read: lr.n is not reduced by the number of bytes read")
+			}
+			seenSub = true
+			continue
+		}
+		is, ok := st.(*ast.IfStmt)
+		if !ok || is.Init != nil || is.Else != nil || len(is.Body.List) == 0 {
+			continue
+		}
+		body := is.Body.List
+		last := body[len(body)-1]
+		switch {
+		case !seenSub && len(body) >= 1 && func() bool {
+			rs, ok := last.(*ast.ReturnStmt)
+			return ok && len(rs.Results) == 1 && exprKey(rs.Results[0]) == "lr.r.Read(p)"
+		}():
+			unlimited = e.aCond(is.Cond, la2)
+		case !seenSub && callsNamed(body, "writeError"):
+			rs, ok := last.(*ast.ReturnStmt)
+			if !ok || len(rs.Results) != 2 || exprKey(rs.Results[0]) != "0" {
+				fail("limitReader.Read: the exhausted-allowance branch does not return 0 bytes")
+			}
+			exhausted = e.aCond(is.Cond, la2)
+		case !seenSub && len(body) == 1 && func() bool {
+			as, ok := last.(*ast.AssignStmt)
+			if !ok || len(as.Lhs) != 1 || exprKey(as.Lhs[0]) != "p" {
+				return false
+			}
+			se, ok := as.Rhs[0].(*ast.SliceExpr)
+			return ok && exprKey(se.X) == "p" && se.Low == nil && se.High != nil && exprKey(se.High) == "lr.n"
+		}():
+			clamp = e.aCond(is.Cond, la2)
+		case seenSub && callsNamed(body, "writeError"):
+			rs, ok := last.(*ast.ReturnStmt)
+			if !ok || len(rs.Results) != 2 || exprKey(rs.Results[0]) != "n" {
+				fail("limitReader.Read: the limit-hit branch does not hand over the bytes read")
+			}
+			hitAfter = e.aCond(is.Cond, la2)
+		default:
+			fail("limitReader.Read: a conditional outside the four known decisions at %v", e.fset.Position(is.Pos()))
+		}
+	}
+	if unlimited == "" || exhausted == "" || clamp == "" || hitAfter == "" {
+		fail("limitReader.Read: one of the four decisions (unlimited, exhausted, clamp, hit) was not found")
+	}
+	fmt.Fprintf(&c, "\n(* limitReader.Read, for an allowance n = lr.n: no limit; nothing left (error, Close 1009, no bytes); the caller's buffer of plen\n   bytes is cut down to the allowance; the allowance is used up by this read (error, Close 1009, the bytes are still handed over) *)\n")
+	fmt.Fprintf(&c, "Definition gen_limit_unlimited (n : Z) : bool :=\n  %s.\nDefinition gen_limit_exhausted (n : Z) : bool :=\n  %s.\nDefinition gen_limit_clamp (plen n : Z) : bool :=\n  %s.\nDefinition gen_limit_hit_after (n : Z) : bool :=\n  %s.\n", unlimited, exhausted, clamp, hitAfter)
+	// Conn.SetReadLimit: the value stored for a limit of n bytes
+	sl := e.fnRecv("read.go", "Conn", "SetReadLimit")
+	if len(sl.Type.Params.List) != 1 || len(sl.Type.Params.List[0].Names) != 1 {
+		fail("SetReadLimit: unexpected signature")
+	}
+	pn := sl.Type.Params.List[0].Names[0].Name
+	sa := atoms{w: "SetReadLimit", z: map[string]string{pn: "n"}, b: map[string]string{}}
+	stored := ""
+	if len(sl.Body.List) == 2 {
+		is, ok := sl.Body.List[0].(*ast.IfStmt)
+		es, ok2 := sl.Body.List[1].(*ast.ExprStmt)
+		if ok && ok2 && is.Init == nil && is.Else == nil && len(is.Body.List) == 1 && strings.HasSuffix(exprKey(es.X), ".Store("+pn+")") {
+			if inc, ok := is.Body.List[0].(*ast.IncDecStmt); ok && inc.Tok == token.INC && exprKey(inc.X) == pn {
+				stored = fmt.Sprintf("if %s then (n + 1)%%Z else n", e.aCond(is.Cond, sa))
+			}
+		}
+	}
+	if stored == "" {
+		fail("SetReadLimit: body outside the grammar (expected `if cond { n++ }` followed by the Store)")
+	}
+	fmt.Fprintf(&c, "\n(* Conn.SetReadLimit: what is stored as the allowance of a message for a limit of n bytes *)\nDefinition gen_limit_stored (n : Z) : Z :=\n  %s.\n", stored)
 	if err := os.WriteFile(filepath.Join(outdir, "ReadCode.v"), []byte(c.String()), 0o644); err != nil {
 		fail("%v", err)
 	}
